@@ -210,7 +210,11 @@ fn run_cases(rep: &mut Report, drv: &mut Option<Driver>, r: &Runner, f: &Callabl
         }
         rep.class(format!("{} {} {}", r.name, c.class, outcome_class(&got)));
         if got != want {
-            let key = format!("{} {}", r.name, c.class);
+            let key = if r.name.contains('#') {
+                format!("StringBuf.as_string history {}", runners::buf_diagnose(&c.args, &got))
+            } else {
+                format!("{} {}", r.name, c.class)
+            };
             let seen = per_key.entry(key.clone()).or_insert(0u32);
             *seen += 1;
             if *seen > 1 {
@@ -452,6 +456,9 @@ fn main() {
                 from = last + 1;
                 batch = 16;
             }
+            // one defect = one key: histories share diagnosis keys across runners; keep the first (shortest) witness
+            let mut seen_keys = std::collections::HashSet::new();
+            rep.impl_violations.retain(|v| seen_keys.insert(v["key"].as_str().unwrap_or("").to_string()));
             rep.emit();
         }
         "replay" => {
